@@ -8,7 +8,7 @@ VERIF = os.path.dirname(os.path.dirname(os.path.abspath(__file__)))
 T = 'Lean 4 theorems over an executable model; model tied to /repo by regenerated translation (T1) and/or differential correspondence (T2); failing-input search by a property oracle'
 P = {
  'C01': ('proof', 'For every shipped class and every nesting of preference-function combinators, for all horizons n, all parameters, flows and prices: the modelled marginal cost is the Gateaux gradient of the modelled cost (IsGradAt: derivative along every direction), hence every partial derivative and, for kink-free classes, the line-integral form. Proved in Lean over the same definitions the driver executes; scalar kernels and the vector cost/deriv bodies of every closed-form class are re-translated from the Python source on every run and bridged to the model (a changed body breaks a bridge lemma); all classes are tied by correspondence on random configurations, including integer-typed and row-shaped flows and built-then-reassigned parameters.',
-         'Kink hypotheses are explicit (integer ABC exponent >= 1 or q > 0; lossy storage away from zero flow; unique arg-max for DemandFunction). nd-based function classes (InformationEntropy, TemporalVariance, CobbDouglas) and WindowDevice are outside the model. IEEE rounding / numpy glue covered by correspondence only.'),
+         'Kink hypotheses are explicit (integer ABC exponent >= 1 or q > 0; lossy storage away from zero flow; unique arg-max for DemandFunction). The numdifftools-based function classes (InformationEntropy, TemporalVariance, CobbDouglas) have an analytic model with proved gradients (DK.C01nd); that numdifftools output approximates them is observed (TemporalVariance by correspondence at 1e-6, the other two against a Python transcription of the Lean formulas). WindowDevice is excluded by the property itself. IEEE rounding / numpy glue covered by correspondence only.'),
  'C02': ('proof', 'For all trees (any depth, fan-out, children with different row counts) over arbitrary block behaviours, by mutual induction: tree cost = sum of block costs on their own rows, marginal-cost rows and bounds rows belong to the owning block, the constraint list holds iff every block constraint holds on its own rows and every node constraint on its own range; zero-padded Jacobians stay gradients; flat/matrix index arithmetic round-trips.',
          'Blocks are abstract in the theorems; the set-level glue of DeviceSet / MFDeviceSet (partition, costv/deriv/hess comprehensions, price explosion, bounds, project, constraints re-wrapping) is re-translated from the current source on every run and bridged to the tree model for every list of children (T1s); shipped leaves/adaptors are also tied by correspondence, on several memory layouts and price forms. numpy slicing/reshape itself is denoted by the translator, not proved.'),
  'C03': ('proof', 'For every list of cumulative bounds and every storage parameterisation, all horizons: the exported constraint list is satisfied exactly by the flows meeting the documented semantics (own limits on own slot range; state of charge from the reported recurrence within [0, capacity], reserve at the end, rate clipping).',
@@ -33,8 +33,8 @@ P = {
          ''),
  'C13': ('proof', 'labels has one entry per row in row order, each the dot-joined ids from the root followed by the block label; map pairs label k with row k, which is the row the owning block reads.',
          'regex lookup abstracted.'),
- 'C14': ('proof', 'PARTIAL for storage/thermal. Closed-form Hessians are the Jacobian of the marginal cost, symmetric, PSD under acceptance, for all classes and combinators; numerically differentiated Hessians (storage, thermal) are compared with finite differences within the documented accuracy only.',
-         ''),
+ 'C14': ('proof', 'PARTIAL for storage/thermal. Closed-form Hessians are the Jacobian of the marginal cost, symmetric, PSD under acceptance, for all classes and combinators; numerically differentiated Hessians (storage, thermal) are compared with finite differences and with the analytic second derivative of the model (DK.C14b) within the documented accuracy only.',
+         'TemporalVariance has a proved analytic Hessian (negative semidefinite: no PSD claim) tied by correspondence at 1e-4; CobbDouglas / InformationEntropy Hessians are observed by second differences only.'),
  'C15': ('proof', 'Model costs equal the documented closed forms restated independently in Lean; end-point marginal costs p_l / p_h, q(x_l) = 1, q(x_h) = a, zero-width slots contribute nothing.',
          ''),
  'C16': ('proof', 'Over the class table extracted from the current source: every dumped key is accepted by the constructor and every constructor argument is dumped (decide); per-class settings round-trip.',
@@ -46,7 +46,7 @@ P = {
  'C19': ('proof', 'PARTIAL. Under oracle specifications of the two SLSQP sub-problems: step stays feasible, does not raise cost, and the projected negative-gradient direction is a strict descent direction unless first-order optimal; repeated steps by induction.',
          'SciPy minimize is a parameter of the model.'),
  'C20': ('proof', 'run_to_array / run_to_cbounds / care / on / supply helpers equal the piecewise-constant expansion denoted, for any number of runs in any key order, all horizons.',
-         'per-kind loaders tied by correspondence.'),
+         'The helpers and the bounds slice of every per-kind loader are re-translated from the current source on every run and bridged to the model for every run dictionary with distinct keys (T1l); cost-function construction and constructors of the per-kind loaders are tied by correspondence.'),
 }
 
 def main():
